@@ -414,20 +414,20 @@ Definition ex_lineno (s : st) (num : bytes) : Z * bytes * st :=
   let fin := fun (n : Z) (rest : bytes) (s' : st) =>
     let '(n', rest') := offsets (S (length rest)) rest n in (n', rest', s') in
   match num with
-  | 46%N :: rest => fin (xrow s) rest s
-  | 36%N :: rest => fin (slen s - 1) rest s
-  | 39%N :: rest =>
-    match lbuf_jump (lb s) (hd0 rest) with
-    | None => (-2, tl rest, s)
-    | Some n => fin n (tl rest) s
-    end
+  | [] => fin (xrow s) [] s
   | c :: rest =>
-    if ((c =? 47) || (c =? 63))%N then
+    if (c =? 46)%N then fin (xrow s) rest s
+    else if (c =? 36)%N then fin (slen s - 1) rest s
+    else if (c =? 39)%N then
+      match lbuf_jump (lb s) (hd0 rest) with
+      | None => (-2, tl rest, s)
+      | Some n => fin n (tl rest) s
+      end
+    else if ((c =? 47) || (c =? 63))%N then
       let '(n, rest', s') := ex_search s num in
       if n <? 0 then (-2, rest', s') else fin n rest' s'
     else if isdigit c then fin (fst (digits num 0) - 1) (skip_digits num) s
     else fin (xrow s) num s
-  | [] => fin (xrow s) [] s
   end.
 
 Fixpoint skip_to_sep (loc : bytes) : bytes :=
@@ -860,26 +860,25 @@ Definition ex_idx (cmd : bytes) : option bytes := ex_idx_in CMDS cmd.
 Definition is_other (cmd : bytes) : bool := existsb (bytes_eqb cmd) OTHER.
 
 (* the commands that do not run other commands *)
+Definition is (a : bytes) (l : list N) : bool := bytes_eqb a l.
 Definition ex_simple (abbr loc cmd arg : bytes) (txt : option bytes) (s : st) : st * Z :=
-  match abbr with
-  | [97%N] | [105%N] | [99%N] => ec_insert loc cmd txt s
-  | [100%N] => ec_delete loc arg s
-  | [107%N] => ec_mark loc arg s
-  | [112%N] => ec_print loc cmd s
-  | [112%N; 117%N] => ec_put loc arg s
-  | [113%N; 33%N] => (set_quit s, 0)
-  | [114%N] => ec_read loc arg s
-  | [114%N; 115%N] => ec_rs arg txt s
-  | [115%N] => ec_substitute loc arg s
-  | [117%N] => ec_undo s
-  | [119%N] | [119%N; 33%N] => ec_write loc arg s
-  | [121%N] => ec_yank loc arg s
-  | [33%N] => ec_exec loc arg s
-  | [61%N] => ec_lnum loc s
-  | [101%N; 99%N] => (emit s (OEcho arg), 0)
-  | [] => ec_null loc cmd s
-  | _ => (flag s F_UNSUP, 1)
-  end.
+  if is abbr [97]%N || is abbr [105]%N || is abbr [99]%N then ec_insert loc cmd txt s
+  else if is abbr [100]%N then ec_delete loc arg s
+  else if is abbr [107]%N then ec_mark loc arg s
+  else if is abbr [112]%N then ec_print loc cmd s
+  else if is abbr [112; 117]%N then ec_put loc arg s
+  else if is abbr [113; 33]%N then (set_quit s, 0)
+  else if is abbr [114]%N then ec_read loc arg s
+  else if is abbr [114; 115]%N then ec_rs arg txt s
+  else if is abbr [115]%N then ec_substitute loc arg s
+  else if is abbr [117]%N then ec_undo s
+  else if is abbr [119]%N || is abbr [119; 33]%N then ec_write loc arg s
+  else if is abbr [121]%N then ec_yank loc arg s
+  else if is abbr [33]%N then ec_exec loc arg s
+  else if is abbr [61]%N then ec_lnum loc s
+  else if is abbr [101; 99]%N then (emit s (OEcho arg), 0)
+  else if is abbr [] then ec_null loc cmd s
+  else (flag s F_UNSUP, 1).
 
 Definition bump (s : st) : st := set_lb s (fst (lbuf_modified (lb s))).
 
